@@ -373,3 +373,28 @@ def gen_record_validate(ctx, gen_module, gen_cfg, family, what, trace_module, tr
                     f.write(lines[0])
                     f.writelines(lines[max(start, 1):rej[0]])
                 ctx.violation("replayed behaviour of %s rejected at line %d of %s: %s" % (what, rej[0], os.path.basename(path), lines[rej[0] - 1].strip()[:300]), rp)
+
+
+def proof_check(ctx, module, what, timeout=900):
+    """TLAPS: discharge every proof obligation of spec/<module>.tla (a lemma about an L2 model, for ALL sizes).
+    The module is copied to the work directory first (tlapm writes its cache next to the file)."""
+    t = time.time()
+    d = os.path.join(ctx.work, "tlaps_" + module)
+    os.makedirs(d, exist_ok=True)
+    shutil.copy(os.path.join(SPEC, module + ".tla"), d)
+    rc, out = sh(["timeout", str(timeout), "tlapm", "--threads", "8", module + ".tla"], cwd=d, timeout=timeout + 30)
+    m = re.search(r"All (\d+) obligations? proved", out)
+    f = re.search(r"(\d+)/(\d+) obligations failed", out)
+    n = int(m.group(1)) if m else (int(f.group(2)) if f else 0)
+    ok = bool(m)
+    ctx.mc_runs.append({"module": module, "cfg": "tlapm", "what": "TLAPS proof: " + what, "obligations": n,
+                        "discharged": n if ok else (n - int(f.group(1)) if f else 0), "ok": ok, "wall_s": round(time.time() - t, 1)})
+    ctx.extra["proof_obligations"] = ctx.extra.get("proof_obligations", 0) + n
+    ctx.extra["proof_discharged"] = ctx.extra.get("proof_discharged", 0) + (n if ok else 0)
+    if not ok:
+        if f:
+            path = os.path.join(ctx.replays, "tlaps_%s.txt" % module)
+            open(path, "w").write(out[-20000:])
+            ctx.violation("TLAPS could not discharge %s of %s obligations of %s (%s)" % (f.group(1), f.group(2), module, what), path)
+        else:
+            raise ToolError("tlapm failed on %s (rc=%s)\n%s" % (module, rc, out[-2000:]))
